@@ -32,6 +32,7 @@ import (
 	"reflect"
 	"regexp"
 	"sort"
+	"strconv"
 	"strings"
 	"time"
 
@@ -325,6 +326,43 @@ func Call(vt *VT, method string, v []byte, shape bool) (obs string) {
 
 var rangeRe = regexp.MustCompile(`r[0-9]`)
 
+// API lists every exported method as Name/arity (arity = arguments besides the receiver), sorted by name.
+func API(vt *VT) []string {
+	t := reflect.TypeOf(vt.Make(nil))
+	var names []string
+	for i := 0; i < t.NumMethod(); i++ {
+		m := t.Method(i)
+		names = append(names, fmt.Sprintf("%s/%d", m.Name, m.Type.NumIn()-1))
+	}
+	return names
+}
+
+// Consts prints the exported layout constants of package packet that the model's offsets rest on.
+func Consts() string {
+	return fmt.Sprintf("EthHeaderLen=%d,EthAddrLen=%d,EthMaxSize=%d,HeaderLen=%d,UDPHeaderLen=%d,IP6HeaderLen=%d,ARPLen=%d,"+
+		"EthType8021AD=%d,ARPOperationRequest=%d,ARPOperationReply=%d,ICMP4TypeEchoReply=%d,ICMP4TypeEchoRequest=%d,"+
+		"ICMP6TypeEchoRequest=%d,ICMP6TypeEchoReply=%d,DHCP4ServerPort=%d,DHCP4ClientPort=%d,DHCP4End=%d,DHCP4Pad=%d",
+		packet.EthHeaderLen, packet.EthAddrLen, packet.EthMaxSize, packet.HeaderLen, packet.UDPHeaderLen, packet.IP6HeaderLen, packet.ARPLen,
+		packet.EthType8021AD, packet.ARPOperationRequest, packet.ARPOperationReply, packet.ICMP4TypeEchoReply, packet.ICMP4TypeEchoRequest,
+		packet.ICMP6TypeEchoRequest, packet.ICMP6TypeEchoReply, packet.DHCP4ServerPort, packet.DHCP4ClientPort, packet.DHCP4End, packet.DHCP4Pad)
+}
+
+// CallArg runs a one-integer-argument accessor of the view under recover.
+func CallArg(vt *VT, method string, arg int, v []byte, shape bool) (obs string) {
+	defer func() {
+		if e := recover(); e != nil {
+			obs = "panic"
+		}
+	}()
+	m := reflect.ValueOf(vt.Make(v)).MethodByName(method)
+	if !m.IsValid() || m.Type().NumIn() != 1 || m.Type().In(0).Kind() != reflect.Int {
+		return "nomethod"
+	}
+	out := m.Call([]reflect.Value{reflect.ValueOf(arg)})
+	base := reflect.ValueOf(v).Pointer()
+	return fmtVal(method, out[0], shape, base, cap(v))
+}
+
 // Methods lists the exported zero-argument methods other than IsValid (reflection order = sorted).
 func Methods(vt *VT) []string {
 	t := reflect.TypeOf(vt.Make(nil))
@@ -357,6 +395,31 @@ func Register(r *lib.Run, shape bool) {
 		return CallGuarded(vt, a[1], lib.UnHex(a[3]), lib.UnHex(a[2]), shape)
 	})
 	r.Register("types", func(a []string) string { return strings.Join(repoViewTypes(), ",") })
+	// api T: census of ALL exported methods of the view type (reflection), as Name/arity, sorted: the model answers
+	// with its getter table (arity 0), IsValid/0 and its list of methods accounted for elsewhere (setters and
+	// encoders: C03; FastLog: C20; accessors with an argument: kind ga). A method added, removed, renamed or
+	// given another arity anywhere in the API of a view type is a correspondence failure.
+	r.Register("api", func(a []string) string {
+		vt := find(a[0])
+		if vt == nil {
+			return "notype"
+		}
+		return strings.Join(API(vt), ",")
+	})
+	// ga T M ARG spare bytes: a view accessor with one integer argument (LLDP.GetPDU), same observation as g
+	r.Register("ga", func(a []string) string {
+		vt := find(a[0])
+		if vt == nil {
+			return "notype"
+		}
+		n, err := strconv.Atoi(a[2])
+		if err != nil {
+			return "badarg"
+		}
+		return CallArg(vt, a[1], n, mkView(lib.UnHex(a[4]), lib.UnHex(a[3])), shape)
+	})
+	// consts: the exported layout constants the model hard-codes
+	r.Register("consts", func(a []string) string { return Consts() })
 	r.Register("m", func(a []string) string {
 		vt := find(a[0])
 		if vt == nil {
@@ -398,6 +461,11 @@ func One(r *lib.Run, rng *lib.Rand, vt *VT, b, sp []byte, class string) {
 	} else if !rng.Chance(35) {
 		return // getters of an invalid view are outside the property; a sample is still compared
 	}
+	if vt.Name == "LLDP" { // the TLV accessor with an argument: wanted types present, absent, End (0), out of range
+		for _, ty := range []int{0, 1, 2, 3, 5, 7, 127, 128, rng.Intn(128)} {
+			r.Do("ga", vt.Name, "GetPDU", strconv.Itoa(ty), s, h)
+		}
+	}
 	for _, m := range Methods(vt) {
 		if m == "String" && vt.StringMax > 0 && len(b) > vt.StringMax {
 			continue
@@ -418,6 +486,7 @@ func clone(b []byte) []byte { return append([]byte{}, b...) }
 // Generate produces the cases of one view type; n scales the random streams.
 func Generate(r *lib.Run, rng *lib.Rand, vt *VT, n int) {
 	r.Do("m", vt.Name)
+	r.Do("api", vt.Name)
 	// structured valid messages, each with one capacity; every 4th also with a second capacity
 	for i := 0; i < n*6/10; i++ {
 		b := vt.Valid(rng)
@@ -524,6 +593,7 @@ func Main(shape bool) {
 		n = 2000
 	}
 	r.Do("types")
+	r.Do("consts")
 	for i := range Types {
 		Generate(r, rng.Fork(), &Types[i], n)
 	}
